@@ -78,11 +78,26 @@ def modeclass(L, n):
     return 'tree' if L >= h else 'hybrid'
 
 
+def zlead(M):
+    """the same bytes, but every 384- and 512-byte block starts with a zero 64-bit word and ends with one (value classes
+    of the compression input words, here: words that are zero)"""
+    b = bytearray(M)
+    for blk in (384, 512):
+        for o in range(0, len(b), blk):
+            b[o:o + 8] = bytes(min(8, len(b) - o))
+            e = min(o + blk, len(b))
+            if e - 8 >= o:
+                b[e - 8:e] = bytes(8)
+    return bytes(b)
+
+
 def run_shapes(ctx, pt):
     d, L, kl, n = pt
     M = expander(n, 1 + (n % 5))
     ctx.shape((L, kl > 0, leafclass(n), n % 512 == 0, n % 384 == 0))
     judge(ctx, '%s/%s' % (modeclass(L, n), 'keyed' if kl else 'unkeyed'), d, L, kl, SHAPE_ROUNDS, M)
+    if n >= 16 and kl in (0, 8):
+        judge(ctx, '%s/%s/blocks-with-zero-words' % (modeclass(L, n), 'keyed' if kl else 'unkeyed'), d, L, kl, SHAPE_ROUNDS, zlead(M))
 
 
 def pts_bits(tier):
@@ -102,8 +117,9 @@ def run_bits(ctx, pt):
     judge(ctx, cls, 256, L, 0, SHAPE_ROUNDS, M, bitlen=bl)
     if k in (0, 3):
         key = keyof(0)
-        r = ctx.attempt(lambda: mk(256, key, L, SHAPE_ROUNDS)(M + b'\xaa' * 7, bitlen=bl))
-        ctx.eq('C17/' + cls + '/longer-container', r, ('ok', RM.md6(256, M, bl, key=key, L=L, r=SHAPE_ROUNDS)))
+        for extra in (7, 520, 3000):
+            r = ctx.attempt(lambda: mk(256, key, L, SHAPE_ROUNDS)(M + b'\xaa' * extra, bitlen=bl))
+            ctx.eq('C17/' + cls + '/longer-container', r, ('ok', RM.md6(256, M, bl, key=key, L=L, r=SHAPE_ROUNDS)))
 
 
 def pts_rounds(tier):
@@ -151,7 +167,7 @@ def subchecks():
         Sub('digest-sizes', pts_d, run_d, engine='P', bound='every d in 1..512 (quick: every 5th + boundary sizes) on a 3-byte message, tree and sequential mode, 12 rounds'),
         Sub('shapes', pts_shapes, run_shapes, engine='P',
             bound='L in {0,1,2,3,64} x key length {0,1,8,63,64} x message byte length in {0..3, 383..385, 511..513, 767..769, 1023..1025, 1535..1537, 2047..2049, 5, 16, 17-, 64+, 65 leaf blocks} (quick: subset above 17 leaves / for odd key lengths) x d in 9 (4) sizes at lengths 3 and 513, 12 rounds'),
-        Sub('bit-lengths', pts_bits, run_bits, engine='P', bound='every L\' mod 8 at 1, 512, 513, 2049, 2561 (thorough 8704) bytes in tree, sequential and hybrid mode; containers 7 bytes longer'),
+        Sub('bit-lengths', pts_bits, run_bits, engine='P', bound='every L\' mod 8 at 1, 512, 513, 2049, 2561 (thorough 8704) bytes in tree, sequential and hybrid mode; containers 7, 520 and 3000 bytes longer'),
         Sub('rounds', pts_rounds, run_rounds, engine='P', bound='default round count 40+d/4 (max(80,.) with a key) for d in {8,64,128,160,384} (thorough 11 sizes) keyed, unkeyed and with all-zero / all-ff keys; explicit rounds 1..17 (subset), 32, 80, 104, 167..170, 200, 255..257, 511 (thorough 500, 1023, 1024, 4095); rounds 1, 5 (thorough 9, 40, 168) x L in {64,0,1} x key length {0,8,64} x 3-4 lengths'),
     ]
 
